@@ -19,7 +19,7 @@ EXPLANATION = ('Argument-provenance rule on the font parameter (which call sites
                'Font::scale(), and a flow-sensitive two-point dimension analysis (design units / pixels, scale converts) of the float '
                'arithmetic in the five functions that apply the scale, over every path on which a font is present.  A du/px mix is '
                'exactly what makes positions stop scaling linearly with the font size; the numeric equality itself is not decided.')
-FLOORS = {'FONTFLOW': 8, 'SCALEUSE': 2, 'UNITS': 5}
+FLOORS = {'FONTFLOW': 30, 'SCALEUSE': 2, 'UNITS': 5}
 
 SCALE_READERS = {'graphite2::Slot::finalise', 'graphite2::Segment::justify', 'gr_slot_advance_X', 'gr_slot_advance_Y', 'graphite2::Face::default_glyph_advance'}
 
@@ -156,3 +156,104 @@ def run(run):
     scaleuse(run, fx)
     ppmflow(run, fx)
     units(run, fx)
+    fontuse(run, fx)
+    from . import c09
+    for f in [f for f in fx.fns_named('graphite2::Font::Font') if not f.f.get('implicit')]:
+        for _, e in f.elements():
+            if e['k'] == 'Init' and e.get('field') == 'graphite2::Font::m_hinted' and e.get('init') is not None:
+                c09.hinted_tests_handle(run, f, e, 'UNITS')       # 'unhinted font' is decided by this flag
+
+
+def fontuse(run, fx):
+    """the only things done with a Font pointer are: hand it on as a Font, call its members, and branch on whether it is null.  Its
+    null-ness never becomes data (a bool argument, a stored flag): a segment made with font = NULL would then be shaped, reversed or
+    positioned differently from one made with a font, beyond the scale (gr_make_seg's `finalise(font, true)` reverses right-to-left
+    text whether or not a font was given)."""
+    n = 0
+    for fn in fx.all_fns():
+        if not fn.file.startswith('src/') or fn.f.get('implicit'):
+            continue
+        pidx = [k for k, p in enumerate(fn.f['params']) if 'Font *' in p['t'] or 'gr_font *' in p['t'] or 'Font*' in p['t']]
+        if not pidx:
+            continue
+        par = fn.parents()
+        conds = set()
+        for b in fn.f.get('blocks', []):
+            t = b.get('term') or {}
+            if t.get('cond') is not None:
+                conds.add(t['cond'])
+        work = [e for _, e in fn.elements() if e['k'] == 'DeclRefExpr' and e.get('pi') in pidx]
+        seen_v = set()
+        while work:
+            e = work.pop(0)
+            n += 1
+            cur = e['i']
+            verdict = None
+            hops = 0
+            while verdict is None and hops < 20:
+                hops += 1
+                if cur in conds:
+                    verdict = 'branch'
+                    break
+                ps = par.get(cur, [])
+                if not ps:
+                    verdict = 'unused value' if cur != e['i'] else 'discarded'
+                    break
+                p = fn.N(ps[0])
+                k = p['k']
+                if k in ('ImplicitCastExpr', 'ParenExpr', 'CStyleCastExpr', 'CXXStaticCastExpr', 'CXXConstCastExpr', 'CXXReinterpretCastExpr', 'ExprWithCleanups'):
+                    cur = p['i']
+                    continue
+                if k == 'UnaryOperator' and p.get('op') == '!':
+                    cur = p['i']
+                    continue
+                if k == 'BinaryOperator' and p.get('op') in ('&&', '||', '==', '!='):
+                    cur = p['i']
+                    continue
+                if k == 'ConditionalOperator' and p['c'][0] == cur:
+                    verdict = 'branch'
+                    break
+                if k in ('CallExpr', 'CXXMemberCallExpr', 'CXXOperatorCallExpr', 'CXXConstructExpr', 'CXXTemporaryObjectExpr'):
+                    if p.get('obj') == cur or (k == 'CXXMemberCallExpr' and p.get('c') and cur in fn._direct_refs(fn.N(p['c'][0]))):
+                        verdict = 'member call'
+                        break
+                    args = p.get('args') or []
+                    if cur in args:
+                        a = fn.N(cur)
+                        at = a.get('t') or ''
+                        verdict = 'forwarded' if ('Font' in at or 'gr_font' in at or 'void' in at) and '*' in at else 'DATA: argument of type %s to %s' % (at, (p.get('fq') or '?'))
+                        break
+                    verdict = 'member call'
+                    break
+                if k == 'MemberExpr':
+                    verdict = 'member call'
+                    break
+                if k in ('ReturnStmt',):
+                    at = fn.N(cur).get('t') or ''
+                    verdict = 'forwarded' if '*' in at else 'DATA: returned as %s' % at
+                    break
+                if k == 'DeclStmt':
+                    # a local that holds the font or its null-ness: its uses are classified in turn
+                    vids = [d.get('vid') for d in p.get('decls', []) if d.get('init') == cur]
+                    if vids and vids[0] is not None:
+                        if vids[0] not in seen_v:
+                            seen_v.add(vids[0])
+                            work.extend(x for _, x in fn.elements() if x['k'] == 'DeclRefExpr' and x.get('vid') == vids[0])
+                        verdict = 'kept in a local (uses classified separately)'
+                        break
+                if k == 'DeclStmt' or (k == 'BinaryOperator' and p.get('op') == '=') or k == 'Init':
+                    at = fn.N(cur).get('t') or ''
+                    verdict = 'forwarded' if '*' in at else 'DATA: stored as %s' % at
+                    break
+                if k == 'CXXDeleteExpr':
+                    verdict = 'destroyed'
+                    break
+                verdict = 'DATA: operand of %s' % k
+            inst = 'use of %s in %s @%s:%s' % (fn.render(e), fn.q.split('graphite2::')[-1], e.get('ln'), e.get('col'))
+            if verdict and verdict.startswith('DATA'):
+                run.violated('FONTFLOW', inst, fn.loc(e), 'whether the font is null becomes a value (%s): the result of shaping / positioning now differs between font = NULL and a real font by more '
+                             'than the scale (only a branch that selects scaled vs design-unit arithmetic may test the font)' % verdict[6:])
+            else:
+                run.held('FONTFLOW', inst, fn.loc(e), verdict or 'unclassified', False)
+    if n < 20:
+        run.broken('FONTFLOW', 'font uses', 'only %d uses of Font parameters found' % n)
